@@ -13,5 +13,5 @@ from checks import gov_common
 
 
 def run(ctx):
-    gov_common.run_streams(ctx, "C32", ["gov-approvals", "gov-pool", "gov-registry"],
+    gov_common.run_streams(ctx, "C32", ["gov-approvals", "gov-pool", "gov-registry", "gov-admission"],
                            "Poly.Props.C32.takes_effect_exactly_at / fires_exactly_when_quorum_reached")
